@@ -26,6 +26,15 @@ for m, r in sorted(rows.items()):
     elif ms:
         pid, k = ms.group(1), ms.group(3)
         name = f"{pid}-{ms.group(2)}m{k}"
+    elif re.search(r"wt-M(\w+)/MUTANTS/m(\d)", m) or re.search(r"seeded/(C\d+)-w4(\w+)m(\d)$", m):
+        # wave 4: written per source module, the property is named by the author (r['primary'])
+        pid = r["primary"]
+        m4 = re.search(r"wt-M(\w+)/MUTANTS/m(\d)", m)
+        if m4:
+            name = f"{pid}-w4{m4.group(1)}m{m4.group(2)}"
+        else:
+            m5 = re.search(r"seeded/(C\d+)-w4(\w+)m(\d)$", m)
+            name = f"{m5.group(1)}-w4{m5.group(2)}m{m5.group(3)}"
     else:
         continue
     valid = bool(r.get("suite_passes_with") and r.get("demo_fails_with") and r.get("demo_passes_without"))
